@@ -160,7 +160,17 @@ class RoundTrips(Suite):
                   for dt, d in (('>i4', [1, -2, 300]), ('>f8', [0.5, -1e4, 3.0]), ('>u2', [1, 2, 515]), ('<i4', [1, -2, 300]),
                                 ('>U3', ['a', 'abc', 'é']), ('=i2', [1, 2, 3]))],
                 dict(kind='numpy', dtype='>i4', shape=[2, 2], data=[1, 2, 3, 4], slice=False, fortran=True, complex=False),
-                dict(kind='listnumpy', arrays=[[[1, 2], '>i4'], [[3.5], '>f8'], [[7], '<u2']])]
+                dict(kind='listnumpy', arrays=[[[1, 2], '>i4'], [[3.5], '>f8'], [[7], '<u2']]),
+                # mappings whose string keys look like numbers (years, ids with leading zeros, a superscript digit)
+                dict(kind='json', value={'2020': 1, '0': {'007': [1], '7': 2}, '-1': 3, '1.5': 4, '²': 5}),
+                dict(kind='json', value=[{'10': 'a', '9': 'b'}, {'k': {'1': {'2': {}}}}]),
+                dict(kind='generated', items=[{'2020': 1}, {'0': {'00': 2}}]),
+                # object-dtype columns and series whose elements are all numbers, booleans, or numbers with None
+                dict(kind='frame', index=[0, 1, 2], columns=[['a', [1, 2, 3], 'object'], ['b', [1.5, None, 2.0], 'object'],
+                                                            ['c', [True, False, True], 'object'], ['d', ['x', 1, None], 'object']]),
+                dict(kind='frame', index=['r0', 'r1', 'r2'], columns=[['n', [1, 2.5, True], 'object']]),
+                dict(kind='series', data=[1, 2, 3], index=[0, 1, 2], dtype='object', name='n'),
+                dict(kind='series', data=[1.5, None, 3], index=['a', 'b', 'c'], dtype='object', name=None)]
 
     def gen(self, rng, tier):
         out = []
